@@ -60,7 +60,40 @@ pub fn run_child(ctx: &mut Ctx) {
             new.len()
         }}; }
         for _ in 0..nsteps {
-            match rng.below(10) {
+            match rng.below(11) {
+                10 => { // SEVERAL keyed exports under different new keys registered in ONE call (as when a manager is opened on a
+                        // directory that already holds them); a batch is registered newest first, so the request lists them in that order
+                    let k = rng.range(2, 3) as usize;
+                    let mut batch: Vec<(std::sync::Arc<MDBShardFile>, MerkleHash, Gen, bool, bool, bool)> = Vec::new();
+                    for bi in 0..k {
+                        let (n1, n2) = (rng.range(1, 4) as usize, rng.range(0, 2) as usize);
+                        let g = gen_content(&mut rng, n1, n2, 0, false);
+                        let mut mem = MDBInMemoryShard::default(); for c in &g.cas { mem.add_cas_block(c.clone()).unwrap(); } for f in &g.files { mem.add_file_reconstruction_info(f.clone()).unwrap(); }
+                        let p = mem.write_to_directory(&side).unwrap(); let sf = MDBShardFile::load_from_file(&p).unwrap();
+                        let key = rand_hash(&mut rng);
+                        let (fi, ci, ki) = (rng.chance(1, 2), rng.chance(1, 2), rng.chance(2, 3));
+                        let ex = sf.export_as_keyed_shard(&dir, key, Duration::from_secs(3600), fi, ci, ki).unwrap();
+                        // distinct modification times: entry bi is older than entry bi+1
+                        let t = std::time::SystemTime::UNIX_EPOCH + Duration::from_secs(1_700_000_000 + 10 * bi as u64);
+                        std::fs::File::options().write(true).open(&ex.path).unwrap().set_modified(t).unwrap();
+                        let ex = MDBShardFile::load_from_file(&ex.path).unwrap();
+                        batch.push((ex, key, g, fi, ci, ki));
+                    }
+                    let handles: Vec<std::sync::Arc<MDBShardFile>> = batch.iter().map(|b| b.0.clone()).collect();
+                    rt.block_on(mgr.register_shards(&handles)).unwrap();
+                    for (ex, key, _, _, _, _) in batch.iter().rev() {
+                        let b = std::fs::read(&ex.path).unwrap(); let (o, l) = ctx.blob(&b); ops.push(format!("R:{o}:{l}")); outs.push("R".into()); reg.push((ex.path.clone(), *key)); known.insert(ex.path.clone());
+                    }
+                    for (_, _, g, fi, ci, ki) in batch.iter() {
+                        let keys: Vec<u64> = g.cas.iter().flat_map(|c| c.chunks.iter().map(|ch| ch.chunk_hash[0])).collect();
+                        let uniq = keys.iter().collect::<BTreeSet<_>>().len() == keys.len();
+                        for c in &g.cas { if c.chunks.is_empty() { continue; } let q: Vec<MerkleHash> = c.chunks.iter().take(4).map(|x| x.chunk_hash).collect();
+                            let a = rt.block_on(mgr.chunk_hash_dedup_query(&q)).unwrap();
+                            if a.is_none() && uniq && maxidx > 64 && !world_cas.values().any(|w| w.chunks.iter().any(|x| x.chunk_hash[0] == q[0][0])) { ctx.fail("C18", "keyed-shard-not-found", format!("a chunk run of a shard registered only in keyed form, together with shards under other new keys in one register_shards call (file_info={fi}, cas_table={ci}, chunk_table={ki}), is not found (case {case_no})"), replay.clone()); } }
+                    }
+                    for (_, _, g, fi, _, _) in batch { for c in g.cas { world_cas.insert(c.metadata.cas_hash, c.clone()); all_gen.cas.push(c); } if fi { for f in g.files { world_files.insert(f.metadata.file_hash, f.clone()); all_gen.files.push(f); } } }
+                    ctx.stat("batch_registrations_of_several_keys");
+                }
                 0 | 1 | 2 => { // add a CAS block
                     let dist = rng.below(4);
                     let g = gen_content(&mut rng, 1, 0, dist, false);
